@@ -10,6 +10,7 @@
 // D: all small graphs: Graph::serialize -> Graph(buffer) identical arrays, second serialisation byte-identical.
 // E: all permutations of <= 5 elements: permutation array <-> swap array representations reproduce each other.
 #include "c11_common.hpp"
+#include "c11_faultgen.hpp"
 
 #include <kernel/geometry/common_factories.hpp>
 #include <kernel/geometry/boundary_factory.hpp>
@@ -25,6 +26,8 @@
 #include <algorithm>
 #include <cmath>
 #include <dirent.h>
+#include <sys/stat.h>
+#include <unistd.h>
 
 using namespace c11;
 
@@ -93,15 +96,28 @@ namespace
     const std::string key = "generated " + tag;
     const std::string type = "conformal:" + std::string(shape_word(ShapeType())) + ":" + itos(Mesh_::shape_dim) + ":" + itos(Mesh_::world_dim);
     // variant >= 1: non-dyadic coordinates
-    if(variant >= 1)
+    if(variant >= 1 && variant <= 2)
     {
       auto& vs = mesh->get_vertex_set();
       for(Index i = 0; i < vs.get_num_vertices(); ++i)
         for(int j = 0; j < Mesh_::world_dim; ++j)
           vs[i][j] = vs[i][j] * 1.1 + (double(i % 7) + 1.0) / 3000.0 + 1e-3 * double(j) - (variant >= 2 ? 123.456 : 0.0);
     }
+    if(variant >= 3)
+    {
+      // value alphabet: zeros of both signs, +-1, %g notation switch points, rounding carries, 2-/3-digit exponent
+      // boundaries, extreme magnitudes of both signs; variant 4: denormals
+      static const double alpha3[] = {0.0, -0.0, 1.0, -1.0, 1e-5, 9.99995e-5, 1e-4, 99999.5, 999999.5, 1e5, 1e6, 123456.7, 1e99, 1e100, -1e100, 1e-99, 1e-100,
+        1e300, -1e300, 1e-300, -1e-300, 1.7976931348623157e308, -1.7976931348623157e308, 2.2250738585072014e-308, 0.1, 1.0 / 3.0, -2.0 / 3.0, 9.999995, 0.9999995};
+      static const double alpha4[] = {4.9406564584124654e-324, -4.9406564584124654e-324, 1e-310, -1e-310, 2.2250738585072009e-308, 0.0, 1.0};
+      const double* al = (variant == 3 ? alpha3 : alpha4);
+      const size_t na = (variant == 3 ? sizeof(alpha3) : sizeof(alpha4)) / sizeof(double);
+      auto& vs = mesh->get_vertex_set();
+      size_t k = 0;
+      for(Index i = 0; i < vs.get_num_vertices(); ++i) for(int j = 0; j < Mesh_::world_dim; ++j) vs[i][j] = al[(k++) % na];
+    }
     MeshAtlas<Mesh_> atlas;
-    std::vector<std::string> chart_names = Charts<Mesh_>::add(atlas, variant);
+    std::vector<std::string> chart_names = Charts<Mesh_>::add(atlas, variant >= 3 ? 1 : variant);
     const Index ncells = mesh->get_num_elements();
     BoundaryFactory<Mesh_> bf(*mesh);
     std::unique_ptr<MeshPart<Mesh_>> bnd = bf.make_unique();
@@ -117,6 +133,7 @@ namespace
     {
       std::unique_ptr<AttributeSet<double>> at(new AttributeSet<double>(bnd_t->get_num_entities(0), 2));
       for(Index i = 0; i < bnd_t->get_num_entities(0); ++i) { (*at)(i, 0) = double(i) / 3.0; (*at)(i, 1) = -double(i) * 0.25; }
+      if(variant >= 3) for(Index i = 0; i < bnd_t->get_num_entities(0); ++i) { (*at)(i, 0) = mesh->get_vertex_set()[i % mesh->get_num_entities(0)][0] * -1.0; (*at)(i, 1) = (i % 2 ? 1e-100 : -1e300); }
       bnd_t->add_attribute(std::move(at), "uv");
       std::unique_ptr<AttributeSet<double>> a2(new AttributeSet<double>(bnd_t->get_num_entities(0), 1));
       for(Index i = 0; i < bnd_t->get_num_entities(0); ++i) (*a2)(i, 0) = double(i);
@@ -154,6 +171,24 @@ namespace
     std::ostringstream os;
     { MeshFileWriter w(os); w.write(&node, &atlas, &ps); }
     const std::string w1 = os.str();
+    // derived object: the clone of the node is written identically, and the original is unchanged by cloning
+    {
+      std::unique_ptr<RootMeshNode<Mesh_>> cl = node.clone_unique();
+      std::ostringstream oc; { MeshFileWriter w(oc); w.write(cl.get(), &atlas, &ps); }
+      c.check(oc.str() == w1, key + " :: clone", "the clone of the mesh node is written differently");
+      std::ostringstream o2; { MeshFileWriter w(o2); w.write(&node, &atlas, &ps); }
+      c.check(o2.str() == w1, key + " :: write-twice", "writing the same node a second time gives a different text");
+    }
+    // unusual overloads: no indentation; internal mesh parts exported on request
+    {
+      std::ostringstream on; { MeshFileWriter w(on, false); w.write(&node, &atlas, &ps); }
+      Parsed pn = parse_mesh(on.str(), type, true, true);
+      c.check(pn.kind == K_OK && pn.canon == can0 && pn.written == w1, key + " :: no-indent", [&]{ return std::string("the unindented output does not parse back to the same node: ") + kind_name(pn.kind) + " " + pn.what; });
+      std::ostringstream oi; { MeshFileWriter w(oi); w.write(&node, &atlas, &ps, false); }
+      SeqResult sr; parse_sequence(type, {oi.str()}, false, true, sr);
+      const bool has_int = sr.written.find("name=\"_internal\"") == std::string::npos && oi.str().find("name=\"_internal\"") != std::string::npos;
+      c.check(sr.kinds[0] == K_OK && has_int && sr.canons[0] == can0, key + " :: export-internal", [&]{ return std::string("write(..., skip_internal_meshparts=false) must export '_internal' and parse back: ") + kind_name(sr.kinds[0]) + " " + sr.whats[0]; });
+    }
     Parsed p = parse_mesh(w1, type, true, true);
     if(!c.check(p.kind == K_OK, key + " :: rejected", [&]{ return std::string("the writer's output is rejected: ") + kind_name(p.kind) + " " + p.what; })) return;
     c.check(p.type == type, key + " :: root-type", [&]{ return "root markup declares '" + p.type + "' for a " + type + " mesh"; });
@@ -174,10 +209,10 @@ namespace
   void cube_cases(verif::Ctx& c, const char* tag, int max_level)
   {
     for(int lvl = 0; lvl <= max_level; ++lvl)
-      for(int variant = 0; variant < 3; ++variant)
+      for(int variant = 0; variant < 5; ++variant)
       {
         if(!c.want()) continue;
-        c.desc([&]{ return std::string("generated node: refined unit cube ") + tag + " level " + itos(lvl) + " variant " + itos(variant) + " (0 dyadic coords, 1/2 non-dyadic coords + more charts)"; });
+        c.desc([&]{ return std::string("generated node: refined unit cube ") + tag + " level " + itos(lvl) + " variant " + itos(variant) + " (0 dyadic coords, 1/2 non-dyadic coords + more charts, 3 extreme-magnitude value alphabet, 4 denormals)"; });
         RefinedUnitCubeFactory<Mesh_> f{Index(lvl)};
         std::unique_ptr<Mesh_> m(new Mesh_(f));
         node_case<Mesh_>(c, std::move(m), std::string(tag) + " L" + itos(lvl) + " v" + itos(variant), variant);
@@ -303,6 +338,33 @@ namespace
     c.nontrivial(verif::Hash().str("chart").str(label).str(chart_xml).get());
   }
 
+
+  std::string lower_(std::string t) { for(auto& ch : t) ch = char(std::tolower((unsigned char)ch)); return t; }
+  std::string scratch_dir()
+  {
+    const char* sc = std::getenv("VERIF_SCRATCH"); const char* rt = std::getenv("VERIF_ROOT");
+    std::string dir = sc ? std::string(sc) : (std::string(rt ? rt : "/verif") + "/build/scratch");
+    dir += "/c11_roundtrip";
+    mkdir(dir.c_str(), 0777);
+    return dir;
+  }
+  template<typename Mesh_> std::string file_canon_typed(const std::string& path)
+  {
+    MeshFileReader reader;
+    reader.add_mesh_file(String(path));
+    MeshAtlas<Mesh_> atlas; PartitionSet ps;
+    std::unique_ptr<RootMeshNode<Mesh_>> node = reader.parse<Mesh_>(atlas, &ps);   // the overload that creates the node
+    return canon(*node, atlas, ps);
+  }
+  std::string file_canon(const std::string& path, const std::string& type)
+  {
+    if(type == "conformal:hypercube:1:1") return file_canon_typed<MeshH1>(path);
+    if(type == "conformal:hypercube:2:2") return file_canon_typed<MeshH2>(path);
+    if(type == "conformal:hypercube:3:3") return file_canon_typed<MeshH3>(path);
+    if(type == "conformal:simplex:2:2") return file_canon_typed<MeshS2>(path);
+    return file_canon_typed<MeshS3>(path);
+  }
+
   // ---------------------------------------------------------------------------------------------- C: property maps
   bool pm_key_ok(const std::string& k) { return !k.empty() && k == trim_ws(k) && k.find('#') == std::string::npos && k.find('=') == std::string::npos && k.find('\n') == std::string::npos; }
   bool pm_val_ok(const std::string& v) { return v == trim_ws(v) && v.find('#') == std::string::npos && v.find('\n') == std::string::npos && (v.empty() || v.back() != '&'); }
@@ -331,7 +393,9 @@ int main(int argc, char** argv)
     "topology, attributes, charts, two partitions, an internal part; C one per property-map tree (entries from keys x values, sections x nested section); D one per graph "
     "(domain x image size <= 3x3, every adjacency relation, plus duplicates and the empty graphs); E one per permutation of <= 5 elements; F one per chart of a parameter family "
     "(Circle radius x midpoint x domain, Sphere radius x midpoint, Bezier open/closed x orientation x params x degree pattern, SurfaceMesh variants, Extrude angles {0,+-0.1,+-0.25,0.375,0.5}^3 incl. both "
-    "gimbal-lock pitches x origin/offset variants x 4 inner charts): write -> parse -> write byte-identical, re-parsed chart equal on project/dist/signed_dist/map at dyadic probe points within 1e-12. Non-trivial: the object was "
+    "gimbal-lock pitches x origin/offset variants x 4 inner charts); G per mesh seed: every permutation of its top-level blocks (one file / one stream per block), every split into two files parsed into the same "
+    "node/atlas/partition set, the same text parsed twice, other reader/writer overloads (nullptr partition set, add_mesh_file, unindented, internal parts); H property-map tree B read into filled tree A "
+    "(9x9 trees x replace x read/merge/read-twice) against a model; value alphabet variants 3/4 of the generated nodes (extreme magnitudes, denormals: write -> parse -> write byte-identical, re-parsed chart equal on project/dist/signed_dist/map at dyadic probe points within 1e-12. Non-trivial: the object was "
     "written and parsed back (hash = object identity).";
   spec.bounds_quick = "A all shipped files; B levels 0..2 (3D: 0..1); C trees with <= 2 root entries, <= 2 sections, <= 2 entries per section, <= 1 nested section; D <= 3x3; E n <= 5";
   spec.bounds_thorough = "B levels 0..3 (3D: 0..2); otherwise as quick";
@@ -354,6 +418,24 @@ int main(int argc, char** argv)
     std::sort(files.begin(), files.end());
   }
   if(files.empty()) { fprintf(stdout, "MACHINERY: no mesh files under %s/data/meshes\n", repo.c_str()); return 2; }
+
+  // ---- mesh seeds (for the merge / order / overload families)
+  std::vector<SeedModel> seeds;
+  {
+    const char* root_env = std::getenv("VERIF_ROOT");
+    const std::string root = root_env ? root_env : "/verif";
+    struct SD { const char* name; const char* type; };
+    const SD sds[] = {{"bezier_closed", "conformal:hypercube:2:2"}, {"partitions", "conformal:hypercube:2:2"}, {"edge1d", "conformal:hypercube:1:1"}, {"extrude3d", "conformal:hypercube:3:3"},
+      {"tria2d", "conformal:simplex:2:2"}, {"quad2d", "conformal:hypercube:2:2"}, {"hexa3d", "conformal:hypercube:3:3"}, {"tetra3d", "conformal:simplex:3:3"}};
+    for(auto& sd : sds)
+    {
+      SeedModel sm; sm.name = sd.name; sm.default_type = sd.type;
+      if(!read_file(root + "/spec/mesh_seeds/" + sd.name + ".xml", sm.text)) { fprintf(stdout, "MACHINERY: cannot read seed %s\n", sd.name); return 2; }
+      sm.analyse();
+      seeds.push_back(sm);
+    }
+  }
+  spec.case_timeout_s = 120;
 
   return verif::run(spec, argc, argv, [&](verif::Ctx& c) {
     // ------------------------------------------------------------------ A: shipped files
@@ -520,6 +602,214 @@ int main(int argc, char** argv)
       }
     }
 
+
+    // ------------------------------------------------------------------ G: several files into one node / atlas, block orders, re-parsing
+    for(const SeedModel& sm : seeds)
+    {
+      const std::string& T = sm.text;
+      // top-level blocks of the seed
+      struct Blk { std::string tag, text, name, chart; bool parent_topo = false; };
+      std::vector<Blk> blks;
+      for(size_t li = 0; li < sm.lines.size(); ++li)
+      {
+        const Line& L = sm.lines[li];
+        if(L.path.size() != 1 || !(L.kind == Line::closed || (L.kind == Line::open && L.match > int(li)))) continue;
+        const size_t b = L.beg, e = (L.kind == Line::closed) ? L.next : sm.lines[size_t(L.match)].next;
+        Blk k; k.tag = L.tag; k.text = T.substr(b, e - b);
+        if(auto* a = sm.attr(L, "name")) k.name = a->value;
+        if(auto* a = sm.attr(L, "chart")) k.chart = a->value;
+        if(auto* a = sm.attr(L, "topology")) k.parent_topo = (a->value == "parent");
+        if(L.tag == "Info") continue;
+        blks.push_back(k);
+      }
+      const std::string rootline = T.substr(sm.lines[0].beg, sm.lines[0].next - sm.lines[0].beg);
+      auto file_of = [&](const std::vector<size_t>& ids) { std::string f = rootline; for(size_t i : ids) f += blks[i].text; return f + "</FeatMeshFile>\n"; };
+      Parsed ref = parse_mesh(T, sm.default_type, true, true);   // cheap, deterministic; outside the cases on purpose (reference for all of them)
+      const std::string ref_canon = sorted_lines(ref.canon);
+      const size_t nb = blks.size();
+
+      // G1: every permutation of the blocks, (a) as one file, (b) each block as its own stream of one reader
+      {
+        std::vector<size_t> perm(nb); for(size_t i = 0; i < nb; ++i) perm[i] = i;
+        do
+        {
+          for(int mode = 0; mode < 2; ++mode)
+          {
+            if(!c.want()) continue;
+            std::string pd; for(size_t i : perm) pd += blks[i].tag + (blks[i].name.empty() ? "" : ":" + blks[i].name) + " ";
+            c.desc([&]{ return "seed " + sm.name + " blocks in order [" + pd + "] " + (mode == 0 ? "in one file" : "as separate streams of one reader"); });
+            const std::string key = "merge " + sm.name + (mode == 0 ? " block-order" : " multi-stream");
+            std::vector<std::string> texts;
+            if(mode == 0) texts.push_back(file_of(perm)); else for(size_t i : perm) texts.push_back(file_of({i}));
+            SeqResult sr;
+            parse_sequence(sm.default_type, texts, true, true, sr);
+            if(c.check(sr.kinds[0] == K_OK, key + " :: rejected", [&]{ return std::string("a permutation of the blocks is rejected: ") + kind_name(sr.kinds[0]) + " " + sr.whats[0]; }))
+              c.check(sorted_lines(sr.canons[0]) == ref_canon, key + " :: structure", [&]{ return "the parsed objects depend on the order of the blocks: " + printable(sr.canons[0], 800); });
+            c.outcome("merge: block order");
+            c.nontrivial(verif::Hash().str("G1").str(sm.name).str(pd).pod(mode).get());
+          }
+        } while(std::next_permutation(perm.begin(), perm.end()));
+      }
+      // G2: two files parsed one after the other (separate readers) into the same node / atlas / partition set
+      for(size_t mask = 1; mask + 1 < (size_t(1) << nb); ++mask)
+      {
+        if(!c.want()) continue;
+        std::vector<size_t> f1, f2; for(size_t i = 0; i < nb; ++i) ((mask >> i) & 1 ? f1 : f2).push_back(i);
+        std::string pd = "{"; for(size_t i : f1) pd += blks[i].tag + " "; pd += "} then {"; for(size_t i : f2) pd += blks[i].tag + " "; pd += "}";
+        c.desc([&]{ return "seed " + sm.name + " split into two files " + pd + " parsed into the same node/atlas"; });
+        const std::string key = "merge " + sm.name + " two-files";
+        // the first file must be self-contained: charts of its mesh parts and the mesh for deducted topologies
+        bool first_ok = true;
+        for(size_t i : f1)
+        {
+          if(blks[i].tag != "MeshPart") continue;
+          if(!blks[i].chart.empty()) { bool have = false; for(size_t j : f1) if(blks[j].tag == "Chart" && blks[j].name == blks[i].chart) have = true; first_ok = first_ok && have; }
+          if(blks[i].parent_topo) { bool have = false; for(size_t j : f1) if(blks[j].tag == "Mesh") have = true; first_ok = first_ok && have; }
+        }
+        SeqResult sr;
+        parse_sequence(sm.default_type, {file_of(f1), file_of(f2)}, false, true, sr);
+        if(first_ok)
+        {
+          if(c.check(sr.kinds[0] == K_OK && sr.kinds[1] == K_OK, key + " :: rejected", [&]{ return std::string("self-contained first file / completing second file rejected: ") + kind_name(sr.kinds[0]) + " " + sr.whats[0] + " / " + kind_name(sr.kinds[1]) + " " + sr.whats[1]; }))
+            c.check(sorted_lines(sr.canons[1]) == ref_canon, key + " :: structure", [&]{ return "two files give a different node than the single file: " + printable(sr.canons[1], 800); });
+        }
+        else
+          c.check(sr.kinds[0] == K_LINKER, key + " :: dangling-reference", [&]{ return std::string("a first file whose mesh part refers to a chart / mesh of the second file must end in MeshNodeLinkerError, got ") + kind_name(sr.kinds[0]) + " " + sr.whats[0]; });
+        c.outcome(first_ok ? "merge: two files" : "merge: dangling reference");
+        c.nontrivial(verif::Hash().str("G2").str(sm.name).pod(mask).get());
+      }
+      // G3: the same text a second time into the filled node (separate reader / second stream)
+      for(int mode = 0; mode < 2; ++mode)
+      {
+        if(!c.want()) continue;
+        c.desc([&]{ return "seed " + sm.name + " parsed twice into the same node/atlas " + (mode == 0 ? "(two readers)" : "(two streams of one reader)"); });
+        const std::string key = "merge " + sm.name + " parsed-twice";
+        bool dup = false; for(auto& b : blks) if(b.tag == "Chart" || b.tag == "Mesh" || b.tag == "MeshPart") dup = true;
+        SeqResult sr;
+        parse_sequence(sm.default_type, {T, T}, mode == 1, true, sr);
+        if(mode == 0)
+        {
+          c.check(sr.kinds[0] == K_OK, key + " :: first", "first parse failed");
+          if(dup)
+          {
+            c.check(documented(sr.kinds[1]), key + " :: second-accepted", [&]{ return std::string("second parse of a file with chart/mesh/mesh part into the filled node must be rejected, got ") + kind_name(sr.kinds[1]); });
+            // all seeds with such blocks start with one: the failed parse must leave the filled objects as they were
+            c.check(sr.canons[1] == sr.canons[0], key + " :: changed", [&]{ return "a rejected second parse modified the node/atlas: " + printable(sr.canons[1], 600); });
+            c.check(sr.written == ref.written, key + " :: rewrite", "node written after the rejected second parse differs");
+          }
+          else
+            c.check(sr.kinds[1] == K_OK, key + " :: second-rejected", [&]{ return std::string("partitions may be added to a filled partition set: ") + kind_name(sr.kinds[1]) + " " + sr.whats[1]; });
+        }
+        else
+          c.check(dup ? documented(sr.kinds[0]) : sr.kinds[0] == K_OK, key + " :: two-streams", [&]{ return std::string("unexpected outcome ") + kind_name(sr.kinds[0]) + " " + sr.whats[0]; });
+        c.outcome("merge: parsed twice");
+        c.nontrivial(verif::Hash().str("G3").str(sm.name).pod(mode).get());
+      }
+      // I: unusual overloads on the seed: partitions ignored (nullptr), unique_ptr-returning parse, file based reading
+      if(c.want())
+      {
+        c.desc([&]{ return "seed " + sm.name + " through the other reader overloads (part_set = nullptr, add_mesh_file)"; });
+        const std::string key = "overload " + sm.name;
+        SeqResult sn; parse_sequence(sm.default_type, {T}, false, false, sn);
+        std::string nopart; { std::istringstream is(ref.canon); std::string l; while(std::getline(is, l)) if(l.compare(0, 11, "partition '") != 0) nopart += l + "\n"; }
+        c.check(sn.kinds[0] == K_OK && sn.canons[0] == nopart, key + " :: no-partition-set", [&]{ return std::string("parse(node, atlas, nullptr) differs from the parse with partitions ignored: ") + kind_name(sn.kinds[0]) + " " + sn.whats[0]; });
+        // file based
+        const std::string dir = scratch_dir();
+        const std::string path = dir + "/" + sm.name + "." + itos((long long)getpid()) + ".xml";
+        { std::ofstream f(path, std::ios::binary); f << T; }
+        std::string what, fcanon;
+        Kind k = classify([&]{ fcanon = file_canon(path, sm.default_type); }, what);
+        unlink(path.c_str());
+        c.check(k == K_OK && fcanon == ref.canon, key + " :: add_mesh_file", [&]{ return std::string("reading through add_mesh_file differs from the stream: ") + kind_name(k) + " " + what; });
+        // a missing file is a FileError
+        std::string w2; Kind k2 = classify([&]{ file_canon(dir + "/does-not-exist.xml", sm.default_type); }, w2);
+        c.check(k2 == K_FILE, key + " :: missing-file", [&]{ return std::string("missing mesh file must raise FileError, got ") + kind_name(k2) + " " + w2; });
+        c.outcome("overloads");
+        c.nontrivial(verif::Hash().str("I").str(sm.name).get());
+      }
+    }
+
+    // ------------------------------------------------------------------ H: property maps read INTO a filled map
+    {
+      struct Ent { std::string path, key, val; };   // path "" = root, "s" , "s/t"
+      const std::vector<std::vector<Ent>> trees = {
+        {},
+        {{"", "a", "1"}},
+        {{"", "a", "2"}, {"", "b", "x y"}},
+        {{"s", "a", "3"}},
+        {{"s", "c", "4"}, {"s/t", "a", "5"}},
+        {{"", "A", "6"}, {"S", "C", "7"}},
+        {{"u", "", ""}},                         // empty section u
+        {{"", "a", ""}, {"s", "a", ""}},
+        {{"s/t", "z", "9"}, {"", "b", "0"}, {"u", "k", "1"}}};
+      // reference model: nested maps keyed case-insensitively, first spelling kept
+      struct Model { std::map<std::string, std::pair<std::string, std::string>> ent; std::map<std::string, std::pair<std::string, std::shared_ptr<Model>>> sec; };
+      std::function<void(Model&, const std::string&, const std::string&, const std::string&, bool)> put = [&](Model& m, const std::string& path, const std::string& k, const std::string& v, bool replace)
+      {
+        if(!path.empty())
+        {
+          size_t p = path.find('/'); std::string h = path.substr(0, p), r = (p == std::string::npos ? std::string() : path.substr(p + 1));
+          auto& sl = m.sec[lower_(h)]; if(!sl.second) { sl.first = h; sl.second = std::make_shared<Model>(); }
+          put(*sl.second, r, k, v, replace); return;
+        }
+        if(k.empty()) return;
+        auto it = m.ent.find(lower_(k));
+        if(it == m.ent.end()) m.ent[lower_(k)] = std::make_pair(k, v); else if(replace) it->second.second = v;
+      };
+      std::function<std::string(const Model&, int)> mcanon = [&](const Model& m, int d)
+      {
+        std::string o;
+        for(auto& e : m.ent) o += std::string(size_t(d), ' ') + "E<" + e.second.first + ">=<" + e.second.second + ">\n";
+        for(auto& x : m.sec) o += std::string(size_t(d), ' ') + "S<" + x.second.first + ">\n" + mcanon(*x.second.second, d + 1);
+        return o;
+      };
+      auto build = [&](PropertyMap& pm, const std::vector<Ent>& t)
+      {
+        for(auto& e : t)
+        {
+          PropertyMap* cur = &pm; std::string path = e.path;
+          while(!path.empty()) { size_t p = path.find('/'); cur = cur->add_section(path.substr(0, p)); path = (p == std::string::npos ? std::string() : path.substr(p + 1)); }
+          if(!e.key.empty()) cur->add_entry(e.key, e.val, true);
+        }
+      };
+      for(size_t ia = 0; ia < trees.size(); ++ia) for(size_t ib = 0; ib < trees.size(); ++ib) for(int replace = 0; replace < 2; ++replace) for(int route = 0; route < 3; ++route)
+      {
+        if(!c.want()) continue;
+        c.desc([&]{ return "property map tree #" + itos((long long)ib) + " read into filled tree #" + itos((long long)ia) + " replace=" + itos(replace) + " route=" + (route == 0 ? "read(stream)" : route == 1 ? "merge()" : "read(stream) twice"); });
+        const std::string key = "property-map merge #" + itos((long long)ia) + "<-#" + itos((long long)ib) + " replace=" + itos(replace) + (route == 0 ? " read" : route == 1 ? " merge" : " read-twice");
+        Model m; for(auto& e : trees[ia]) put(m, e.path, e.key, e.val, true);
+        Model mb; for(auto& e : trees[ib]) put(mb, e.path, e.key, e.val, true);
+        for(auto& e : trees[ib]) put(m, e.path, e.key, e.val, replace != 0);
+        PropertyMap pa, pb; build(pa, trees[ia]); build(pb, trees[ib]);
+        const std::string b_before = pm_canon(pb);
+        std::ostringstream ob; pb.write(ob);
+        std::string what;
+        Kind k = classify([&]{
+          if(route == 1) pa.merge(pb, replace != 0);
+          else { std::istringstream is(ob.str()); pa.read(is, replace != 0); if(route == 2) { std::istringstream is2(ob.str()); pa.read(is2, replace != 0); } }
+        }, what);
+        if(!c.check(k == K_OK, key + " :: rejected", [&]{ return std::string(kind_name(k)) + " " + what; })) continue;
+        c.check(pm_canon(pa) == mcanon(m, 0), key + " :: structure", [&]{ return "merged map differs from the model: " + printable(pm_canon(pa)) + " expected " + printable(mcanon(m, 0)); });
+        c.check(pm_canon(pb) == b_before && pm_canon(pb) == mcanon(mb, 0), key + " :: source-changed", "the source map was modified");
+        c.outcome("ini: merge");
+        c.nontrivial(verif::Hash().str("H").pod(ia).pod(ib).pod(replace).pod(route).get());
+      }
+      // file based overloads
+      if(c.want())
+      {
+        c.desc([&]{ return std::string("property map write(filename) / read(filename)"); });
+        PropertyMap pm; build(pm, trees[8]); build(pm, trees[5]);
+        const std::string path = scratch_dir() + "/pm." + itos((long long)getpid()) + ".ini";
+        std::string what; PropertyMap q;
+        Kind k = classify([&]{ pm.write(String(path)); q.read(String(path), true); }, what);
+        unlink(path.c_str());
+        c.check(k == K_OK && pm_canon(q) == pm_canon(pm), "property-map file :: roundtrip", [&]{ return std::string(kind_name(k)) + " " + what; });
+        std::string w2; PropertyMap q2; Kind k2 = classify([&]{ q2.read(String(scratch_dir() + "/does-not-exist.ini"), true); }, w2);
+        c.check(k2 == K_FILE, "property-map file :: missing-file", [&]{ return std::string("missing file must raise FileError, got ") + kind_name(k2) + " " + w2; });
+        c.nontrivial(verif::Hash().str("Hfile").get());
+      }
+    }
+
     // ------------------------------------------------------------------ C: property-map trees
     {
       const std::vector<std::string> keys = {"a", "B", "a b", "[k", "k]", "{", "x=y", "h#"};
@@ -619,6 +909,18 @@ int main(int argc, char** argv)
         c.check(same, key + " :: structure", [&]{ return "deserialised graph differs: domain " + itos((long long)g.get_num_nodes_domain()) + "/" + itos((long long)h.get_num_nodes_domain()) + " image " + itos((long long)g.get_num_nodes_image()) + "/" + itos((long long)h.get_num_nodes_image()) + " indices " + itos((long long)g.get_num_indices()) + "/" + itos((long long)h.get_num_indices()); });
         std::vector<char> buf2 = h.serialize();
         c.check(buf2 == buf, key + " :: roundtrip", "second serialisation is not byte-identical");
+        // derived objects: clone, move construction, move assignment serialise identically; the source of the clone is unchanged
+        {
+          Graph cl = g.clone();
+          c.check(cl.serialize() == buf && g.serialize() == buf, key + " :: clone", "clone (or the source after cloning) serialises differently");
+          Graph mv(std::move(cl));
+          c.check(mv.serialize() == buf, key + " :: move-ctor", "move-constructed graph serialises differently");
+          Graph ma; ma = std::move(mv);
+          c.check(ma.serialize() == buf, key + " :: move-assign", "move-assigned graph serialises differently");
+          Graph into(h.serialize());            // deserialise a second time, then overwrite an existing non-empty graph
+          Graph other(Index(2), Index(2), Index(0)); other = std::move(into);
+          c.check(other.serialize() == buf, key + " :: assign-into-filled", "graph assigned into an existing graph serialises differently");
+        }
         // header consistency: declared size == actual size
         c.check(buf.size() >= 40 && reinterpret_cast<const std::uint64_t*>(buf.data())[1] == buf.size(), key + " :: header-size", "declared buffer size differs from the buffer size");
         c.outcome("graph: identical");
